@@ -19,7 +19,7 @@ use crate::kani_verif::*;
 macro_rules! rekey_ok_contract {
     ($name:ident, $hyb1:expr) => {
         kproof! {
-            #[kani::unwind(4)]
+            #[kani::unwind(10)]
             fn $name() {
                 let mut rng = SymRng;
                 let (r1, r2) = (right(&[1]), right(&[2]));
@@ -43,6 +43,7 @@ macro_rules! rekey_ok_contract {
                 assert!(msk.secrets.chain_length(&r2) == 1, "C04: frame, other rights untouched");
                 assert!(*msk_at(&msk, &r2, 0).unwrap() == (act2, k2), "C04/C06: frame, other rights untouched");
                 assert!(msk.secrets.len() == 2, "C04: frame, no right added or removed");
+                std::mem::forget(msk);
             }
         }
     };
@@ -55,7 +56,7 @@ rekey_ok_contract!(rekey__ok__hybridized, true);
 macro_rules! rekey_err_contract {
     ($name:ident, $unknown_first:expr) => {
         kproof! {
-            #[kani::unwind(4)]
+            #[kani::unwind(10)]
             fn $name() {
                 let mut rng = SymRng;
                 let (r1, r2, r3) = (right(&[1]), right(&[2]), right(&[3]));
@@ -75,6 +76,7 @@ macro_rules! rekey_err_contract {
                 assert!(msk.secrets.chain_length(&r1) == 1 && msk.secrets.chain_length(&r2) == 1, "C10: failed rekey rotates nothing");
                 assert!(*msk_at(&msk, &r1, 0).unwrap() == (act1, k1), "C10: failed rekey leaves every secret untouched");
                 assert!(*msk_at(&msk, &r2, 0).unwrap() == (act2, k2), "C10: failed rekey leaves every secret untouched");
+                std::mem::forget(msk);
             }
         }
     };
